@@ -116,6 +116,10 @@ def ecode(t):
         return "(SToSeq %s %s)" % (TS[t["j"]], ecode(t["s"]))
     if o == "stoseqe":
         return "(SToSeqE %s %s)" % (ecode(t["b"]), ecode(t["s"]))
+    if o == "pwhen":
+        return "(PWhen %s %s)" % (ppcode(t["p"]), ecode(t["s"]))
+    if o == "swhen":
+        return "(SWhen %s %s)" % (ppcode(t["p"]), ecode(t["s"]))
     raise ValueError(o)
 
 
@@ -204,6 +208,8 @@ def pexpr(t):
         return "pair.ToSeq(%s, %s)" % (pexpr(t["s"]), TST[t["j"]])
     if o == "stoseqe":
         return "pair.ToSeq(%s, (a,b)->%s)" % (pexpr(t["s"]), pexpr(t["b"]))
+    if o in ("pwhen", "swhen"):
+        return "[%s ? %s : nil]" % (pppred(t["p"]).replace("k", "a").replace("v", "b"), pexpr(t["s"]))
     raise ValueError(o)
 
 
@@ -258,6 +264,8 @@ def den(t, a=0, b=0):
         return [b]
     if o == "sshift":
         return [b + y for y in t.get("xs", [])]
+    if o in ("pwhen", "swhen"):
+        return den(t["s"], a, b) if ipp(t["p"], a, b) else []
     l = den(t["s"], a, b)
     if o == "ptakew":
         r = []
